@@ -2,11 +2,15 @@ package c04
 
 import (
 	"bytes"
+	"context"
 	"fmt"
+	"strings"
 	"testing"
+	"time"
 
 	kafka "github.com/segmentio/kafka-go"
 	"github.com/segmentio/kafka-go/protocol"
+	"github.com/segmentio/kafka-go/protocol/produce"
 
 	"verif/engine/bub"
 	"verif/engine/fk"
@@ -18,7 +22,7 @@ import (
 // legacy Conn codec: every request frame the hand-written codec emits is captured at the fake
 // broker: announced size = bytes written, decodable by protocol.ReadRequest, version within the
 // range the broker advertised.
-func legacy(t *testing.T, s *seqx.Suite) {
+func legacy(t *testing.T, s *seqx.Suite, thorough bool) {
 	s.Begin("legacy-conn-frames")
 	ops := connops.Ops()
 	// produce requests whose sizes sit on varint boundaries (size pre-computation of the hand-written codec)
@@ -52,9 +56,20 @@ func legacy(t *testing.T, s *seqx.Suite) {
 	for i := range ops {
 		for ti, tab := range tables {
 			o := &ops[i]
-			tab, ti := tab, ti
+			tab := tab
 			id := fmt.Sprintf("%s versions#%d", o.Name, ti)
-			s.Case(id, id, func() (string, *seqx.Viol) {
+			s.Case(id, id, func() (string, *seqx.Viol) { return legacyCase(t, o, tab, nil) })
+		}
+	}
+	legacyConfig(t, s, connops.Ops(), tables, thorough)
+}
+
+// legacyCase runs one operation on a fresh Conn (cfg == nil: the usual ClientID "verif", no transactional id) against a
+// cluster advertising the version table and judges every frame the connection carried.
+func legacyCase(t *testing.T, o *connops.Op, tab map[protocol.ApiKey]fk.VRange, cfg *kafka.ConnConfig) (string, *seqx.Viol) {
+	{
+		{
+			{
 				var v *seqx.Viol
 				key := o.Name
 				br := bub.Run(t, 0, func() {
@@ -64,7 +79,19 @@ func legacy(t *testing.T, s *seqx.Suite) {
 						vs := hx.Versions(tab)
 						c.Versions = map[int]map[protocol.ApiKey]fk.VRange{1: vs, 2: vs}
 					}
-					conn, cid := hx.Conn(c, "t", 0)
+					var conn *kafka.Conn
+					var cid int
+					if cfg == nil {
+						conn, cid = hx.Conn(c, "t", 0)
+					} else {
+						nc, err := c.Dial(context.Background(), "tcp", "b1:9092")
+						if err != nil {
+							panic(err)
+						}
+						cid = len(c.Conns) - 1
+						conn = kafka.NewConnWith(nc, *cfg)
+						conn.SetDeadline(time.Now().Add(10 * time.Second))
+					}
 					if tab == nil && o.Vers != nil {
 						vs := hx.Versions(o.Vers)
 						c.Versions = map[int]map[protocol.ApiKey]fk.VRange{1: vs, 2: vs}
@@ -91,6 +118,19 @@ func legacy(t *testing.T, s *seqx.Suite) {
 						if e.ProdErr != "" {
 							v = &seqx.Viol{Sig: "legacy-produce:" + o.Name, Msg: e.ProdErr}
 						}
+						if cfg != nil && e.DecodeErr == "" {
+							// the header carries the client id, a produce request of version 3..8 the transactional id of the Conn
+							wantID := cfg.ClientID
+							if wantID == "" {
+								wantID = kafka.DefaultClientID // documented: an empty ConnConfig.ClientID means the default one
+							}
+							if e.ClientID != wantID {
+								v = &seqx.Viol{Sig: "legacy-client-id:" + o.Name, Msg: fmt.Sprintf("%s: request api %d v%d carries a client id of %d bytes, the Conn uses one of %d bytes", o.Name, e.Key, e.Version, len(e.ClientID), len(wantID))}
+							}
+							if pr, ok := e.Msg.(*produce.Request); ok && e.Version >= 3 && pr.TransactionalID != cfg.TransactionalID {
+								v = &seqx.Viol{Sig: "legacy-transactional-id:" + o.Name, Msg: fmt.Sprintf("%s: produce v%d carries transactional id %.20q (%d bytes), the Conn was configured with %.20q (%d bytes)", o.Name, e.Version, pr.TransactionalID, len(pr.TransactionalID), cfg.TransactionalID, len(cfg.TransactionalID))}
+							}
+						}
 					}
 					if total != len(stream) {
 						v = &seqx.Viol{Sig: "legacy-size-prefix:" + o.Name, Msg: fmt.Sprintf("%s: the connection carried %d bytes but the size prefixes of its %d-byte frames add up to %d", o.Name, len(stream), total, total)}
@@ -99,8 +139,82 @@ func legacy(t *testing.T, s *seqx.Suite) {
 				if br.Panic != "" {
 					return "panic", &seqx.Viol{Sig: "panic", Msg: br.Panic}
 				}
+				if v != nil && cfg != nil {
+					v.Msg += fmt.Sprintf(" (ConnConfig: ClientID of %d bytes, TransactionalID of %d bytes)", len(cfg.ClientID), len(cfg.TransactionalID))
+				}
 				return key, v
-			})
+			}
+		}
+	}
+}
+
+// legacyConfig varies what the usual sweep keeps fixed and what feeds the size pre-computation of the hand-written
+// codec: the transactional id of the Conn (null, 1, 10, 300 bytes) x the produce version the broker's advertisement
+// makes the Conn pick (max 2 -> v2; 3, 5, 6 -> v3; 7, 9 -> v7) x message shapes x compressed or not, and the client
+// id ("" = the default one, 1 byte, 300 bytes) for every operation of the Conn.
+func legacyConfig(t *testing.T, s *seqx.Suite, ops []connops.Op, tables []map[protocol.ApiKey]fk.VRange, thorough bool) {
+	s.Begin("legacy-conn-config")
+	long := func(n int) string { return strings.Repeat("abcdefghij", n/10) }
+	shapes := []struct {
+		name string
+		msgs []kafka.Message
+	}{
+		{"kvh+v", []kafka.Message{{Key: []byte("k"), Value: make([]byte, 65), Headers: []kafka.Header{{Key: "h", Value: []byte("hv")}}}, {Value: []byte("x")}}},
+		{"empty", []kafka.Message{{}}},
+		{"3msgs", []kafka.Message{{Value: make([]byte, 127)}, {Key: make([]byte, 64)}, {Value: []byte("z")}}},
+	}
+	clientIDs := []string{"verif"}
+	if thorough {
+		clientIDs = []string{"verif", "", long(300)}
+	}
+	for _, txn := range []string{"", "t", long(10), long(300)} {
+		for _, pv := range []int16{2, 3, 5, 6, 7, 9} {
+			for si, sh := range shapes {
+				for _, codec := range []string{"none", "gzip"} {
+					if !thorough && (si == 2 || codec == "gzip" && si != 0) {
+						continue
+					}
+					for _, clid := range clientIDs {
+						msgs, codec := sh.msgs, codec
+						o := &connops.Op{Name: fmt.Sprintf("produce-max%d-%s-%s", pv, sh.name, codec), Key: protocol.Produce,
+							Run: func(c *kafka.Conn) (string, error) {
+								var err error
+								if codec == "gzip" {
+									_, err = c.WriteCompressedMessages(kafka.Gzip.Codec(), msgs...)
+								} else {
+									_, err = c.WriteMessages(msgs...)
+								}
+								if err == nil {
+									// a second request on the same connection: a wrong size prefix of the first one shifts it
+									_, err = c.WriteMessages(kafka.Message{Value: []byte("second")})
+								}
+								return "", err
+							}}
+						cfg := &kafka.ConnConfig{ClientID: clid, Topic: "t", Partition: 0, TransactionalID: txn}
+						tab := map[protocol.ApiKey]fk.VRange{protocol.Produce: {0, pv}}
+						id := fmt.Sprintf("%s txn=%dB client=%dB", o.Name, len(txn), len(clid))
+						s.Case(id, id, func() (string, *seqx.Viol) { return legacyCase(t, o, tab, cfg) })
+					}
+				}
+			}
+		}
+	}
+	// every operation with a client id that is absent, one byte, or longer than a byte can count
+	for i := range ops {
+		for ti, tab := range tables {
+			if !thorough && ti != 0 && ti != 1 {
+				continue
+			}
+			for _, clid := range []string{"", "c", long(300)} {
+				o := &ops[i]
+				tab := tab
+				if tab == nil && o.Vers != nil {
+					tab = o.Vers
+				}
+				cfg := &kafka.ConnConfig{ClientID: clid, Topic: "t", Partition: 0}
+				id := fmt.Sprintf("%s versions#%d client=%dB", o.Name, ti, len(clid))
+				s.Case(id, id, func() (string, *seqx.Viol) { return legacyCase(t, o, tab, cfg) })
+			}
 		}
 	}
 }
